@@ -206,6 +206,28 @@ def run(ck, F, E):
             ck.require(ok_guard and "get_line_number" in show(payload), "C17:TRACE:numbered-only", "trace placement",
                        "Trace(n) is built only on the Some arm of get_line_number(), with that line",
                        "the Trace record is no longer restricted to numbered lines (or carries another number)", sp)
+            # the push may depend on nothing but the flag and the line being numbered
+            extra = []
+            for bb in sorted(es.reachable()):
+                t = es.term(bb)
+                if t["k"] != "switch" or not es.dominates(bb, b) or bb == b:
+                    continue
+                succs = es.succs(bb)
+                controlling = not all(b in es.blocks_reachable_from(x) for x in succs)
+                if not controlling:
+                    continue
+                txt = show(es.expr(t["discr"]))
+                info = es.switch_info(bb)
+                subj = show(info[0]) if info else txt
+                if "enable_tracing" in subj or "enable_tracing" in txt:
+                    continue
+                if "get_line_number" in subj and info and info[3] and set(info[3].values()) == {"None", "Some"}:
+                    continue
+                extra.append(subj[:120])
+            ck.require(not extra, "C17:TRACE:conditions", "trace placement",
+                       "the Trace push is control-dependent only on enable_tracing and on the line being numbered",
+                       "whether a trace record is emitted also depends on %s: the trace no longer names every numbered line "
+                       "execution passes through (a record can be suppressed by earlier, untraced execution)" % extra, sp)
             # trace happens before dispatch: the dispatch next_token is not reachable *to* the trace
             ok_before = bool(disp) and all(not es.reaches(d.bb, b) for d in disp)
             ck.require(ok_before, "C17:TRACE:before-dispatch", "trace placement",
